@@ -313,7 +313,7 @@ const BASE_RULES: &str = ".cfa: $b 8 + .ra: .cfa ^";
 const LAYOUTS: &[(u64, u64)] = &[(0x14, 0x18), (0x18, 0x14), (0x10, 0x2f), (0x08, 0x14), (0x14, 0x30)];
 const LOOKUPS: &[u64] = &[0x0f, 0x10, 0x13, 0x14, 0x16, 0x18, 0x2e, 0x2f, 0x30, 0x40];
 
-fn struct_space(delta_len: u32) -> Space {
+fn struct_space(delta1_len: u32) -> Space {
     let mut inits: Vec<String> = FRAGS.iter().map(|f| f.to_string()).collect();
     for a in FRAGS {
         for b in FRAGS {
@@ -324,16 +324,19 @@ fn struct_space(delta_len: u32) -> Space {
     for a in FRAGS {
         inits.push(format!("{BASE_RULES} {a}"));
     }
+    // menu of one delta line: none, one fragment, (two fragments: only the first delta line in the
+    // file and only at the larger bound; the layouts put that line at the lower and the higher address)
     let mut deltas: Vec<Option<String>> = vec![None];
     deltas.extend(FRAGS.iter().map(|f| Some(f.to_string())));
-    if delta_len >= 2 {
+    let n_short = deltas.len() as u64;
+    if delta1_len >= 2 {
         for a in FRAGS {
             for b in FRAGS {
                 deltas.push(Some(format!("{a} {b}")));
             }
         }
     }
-    let radices = [inits.len() as u64, deltas.len() as u64, deltas.len() as u64, LAYOUTS.len() as u64];
+    let radices = [inits.len() as u64, deltas.len() as u64, n_short, LAYOUTS.len() as u64];
     let n = product(&radices);
     let inits = std::sync::Arc::new(inits);
     let deltas = std::sync::Arc::new(deltas);
@@ -538,7 +541,7 @@ fn main() {
         let mut def = CheckDef::new(
             "C06",
             "model_checking",
-            "bounded-exhaustive differential: (expr) every token sequence of length 0..=L over the 26-token alphabet (and, beyond L, every WELL-FORMED — stack never underflows, one value left — expression of exactly L+1 tokens over the full alphabet and of L+2 tokens over a reduced value alphabet) hosted in the .cfa rule, the .ra rule and a general-register rule of a one-record symbol file, each evaluated by the real parser + SymbolFile::walk_frame through a mock FrameWalker on 4 register files (+ the unreadable-memory image when memory is used) and compared (Some/None, cfa, ra, final set/cleared/untouched state of every caller register) with the reference interpreter vh::refcfi; (structure) every INIT rule list (1-2 fragments, or base + 0-1) x two delta records (0..=D fragments each) x 5 address layouts (file order reversed, at the range bounds, below the INIT start, at the range end) with neighbour records before and after, looked up at 10 addresses + below the module base on 2 register files; (amd64-walk_stack) 5^3 register rule choices x 2 cfa x 2 ra rules x 3 callee validity sets through the real walk_stack. distinct_nontrivial = distinct (host, register file, memory image, reference outcome incl. values) for expr; distinct (rule lines in effect, register file) for structure; distinct (validity, reference outcome) for the walk.",
+            "bounded-exhaustive differential: (expr) every token sequence of length 0..=L over the 26-token alphabet (and, beyond L, every WELL-FORMED — stack never underflows, one value left — expression of exactly L+1 tokens over the full alphabet and of L+2 tokens over a reduced value alphabet) hosted in the .cfa rule, the .ra rule and a general-register rule of a one-record symbol file, each evaluated by the real parser + SymbolFile::walk_frame through a mock FrameWalker on 4 register files (+ the unreadable-memory image when memory is used) and compared (Some/None, cfa, ra, final set/cleared/untouched state of every caller register) with the reference interpreter vh::refcfi; (structure) every INIT rule list (1-2 fragments, or base + 0-1) x two delta records (the first in the file 0..=D fragments, the second 0..=1) x 5 address layouts (file order reversed, at the range bounds, below the INIT start, at the range end) with neighbour records before and after, looked up at 10 addresses + below the module base on 2 register files; (amd64-walk_stack) 5^3 register rule choices x 2 cfa x 2 ra rules x 3 callee validity sets through the real walk_stack. distinct_nontrivial = distinct (host, register file, memory image, reference outcome incl. values) for expr; distinct (rule lines in effect, register file) for structure; distinct (validity, reference outcome) for the walk.",
         );
         def.assumptions = vec![
             "the reference is written from the module documentation of walker.rs and the property statement; '@' truncates the lhs to a multiple of the rhs, which must be a power of two; zero is not a power of two".into(),
